@@ -35,6 +35,7 @@ EXPLANATION = ("a: the action loop is dominated by the true edge of evaluate_con
 FLOORS = {"forward_loops": 2, "evaluators": 6, "operator_variants": 11}
 EXPLANATION += " a (added): the action loop iterates the rule's stored actions, not a copy mutated beforehand, and right-hand expressions are evaluated only inside execute_action (at the moment each action runs). b (added): ConditionGroup::{single,and,or,not,exists,forall} return, on every path, exactly the variant they are named after with their parameters in place."
 EXPLANATION += " e (added, shared with C04.h): the parser's identifier test admits digits after the first character, so a bare field name such as `base2` on a right-hand side is read as a reference and not stored as text."
+EXPLANATION += " d (added): evaluate_expression runs on the condition's value only in the Value::Expression arm (a quoted literal is looked up as a name, never computed)."
 
 OP = "types::Operator"
 VALUE = "types::Value"
@@ -478,6 +479,25 @@ def _operands(P, R):
         R.hold("d", "right operand: String -> facts lookup, Expression -> evaluate_expression, else the literal", fn=fn, line=c.line)
     else:
         R.violate("d", "rhs-operand", "the right operand is not resolved from the facts before comparison (facts lookup=%s, expression=%s, literal=%s)" % (uses_facts, uses_expr, raw), fn, c.line)
+    # a quoted literal is text: it may be looked up as a fact name, never computed. evaluate_expression may run on the value
+    # only when it is a Value::Expression (`Customer.zip == "90210"` must compare with the string, not with Integer(90210))
+    for ce in [x_ for x_ in fn.calls() if x_.resolved == "expression::evaluate_expression" and x_.bb in fn.normal_blocks()]:
+        allowed = None
+        for b in sorted(fn.normal_blocks()):
+            if fn.term(b)[2] == "switch" and fmt_sym(strip(fn.sym_switch(b)), maxdepth=6) == "discr(condition.value)" and fn.dominates(b, ce.bb):
+                ve2 = A.variant_edges(fn, b)
+                if not ve2:
+                    continue
+                allowed = set()
+                for var, tgt2 in ve2.items():
+                    if ce.bb in fn.reach(tgt2, avoid_blocks=[b]):
+                        allowed.add(var)
+        if allowed is None:
+            continue
+        if allowed <= {"Expression"}:
+            R.hold("d", "evaluate_expression is applied to the condition's value only when it is a Value::Expression", fn=fn, line=ce.line)
+        else:
+            R.violate("d", "rhs-literal-evaluated", "evaluate_expression runs on the condition's value for the variants %s: a quoted string literal that happens to read as arithmetic (\"90210\", \"2024-01-15\", \"555-1234\") is replaced by a computed number before the comparison" % sorted(str(v_) for v_ in allowed), fn, ce.line)
     # side order
     if any(x[0] == "field" and x[2] == "value" for x in walk(left)):
         R.violate("d", "operands-swapped", "the condition's value is passed as the left operand", fn, c.line)
